@@ -49,6 +49,9 @@ func (w *world) httpInput(c httpCase, probe bool) {
 		if st != 405 && st != 404 {
 			w.r.Nontrivial(fmt.Sprintf("http/%s/%s/%x", c.method, pq, c.body))
 		}
+		if st != 405 && st != 404 && w.rng.Intn(200) == 0 {
+			w.r.Sample(map[string]interface{}{"kind": "http", "method": c.method, "path": clipStr(pq), "qclass": c.qclass, "bclass": c.bclass, "status": st, "body": clip(c.body)})
+		}
 		if st == 200 && strings.HasPrefix(c.bclass, "signed.") && c.method == "POST" {
 			w.r.Count("http.accepted."+strings.TrimPrefix(c.route, "/api/v1/"), 1)
 		}
@@ -590,6 +593,7 @@ func childShutdown(b run.Batch, r *ev.Result, rng *rand.Rand) {
 			r.Count("shutdown.with_idle_sync_conns", 1)
 		}
 		r.Nontrivial("shutdown/" + sc.String())
+		r.Sample(map[string]interface{}{"kind": "shutdown", "held": sc.String()})
 		ok := w.closeJudged(fmt.Sprintf("scenario %d", i), held, sc.String())
 		for _, c := range held {
 			c.Close()
